@@ -797,3 +797,17 @@ fire('rx14-digit-run-ambiguous', ['C02', 'C09'], ['RX-14'], 'the decimal digit p
      (TOK, "    Decnumber = r'(?:0(?:_?0)*|[1-9](?:_?[0-9])*)'", "    Decnumber = r'(?:0(?:_?0)*|[1-9](?:_?[0-9]+)*)'"))
 silent('s-rx14-digit-run-unambiguous', ['C02', 'C09', 'C10'], 'the decimal digit part written with an explicit separator: [0-9]*(?:_[0-9]+)* - same language, unambiguous',
        (TOK, "    Decnumber = r'(?:0(?:_?0)*|[1-9](?:_?[0-9])*)'", "    Decnumber = r'(?:0(?:_?0)*|[1-9][0-9]*(?:_[0-9]+)*)'"))
+
+# round 13: the mtime is sampled before the read and handed to the cache - on every way to a save, or only under `cache`
+_SAVE_SIG = ("def try_to_save_module(hashed_grammar, file_io, module, lines, pickling=True, cache_path=None):\n    path = file_io.path\n    try:\n        p_time = None if path is None else file_io.get_last_modified()\n    except OSError:\n        p_time = None\n        pickling = False\n",
+             "def try_to_save_module(hashed_grammar, file_io, module, lines, pickling=True, cache_path=None, p_time=None):\n    path = file_io.path\n")
+_SAVE_CALL_1 = ("                                   cache_path=cache_path)\n                return new_node", "                                   cache_path=cache_path, p_time=p_time)\n                return new_node")
+_SAVE_CALL_2 = ("                               cache_path=cache_path)\n        return root_node", "                               cache_path=cache_path, p_time=p_time)\n        return root_node")
+fire('cache3-sample-only-when-caching', ['C16'], ['CACHE-3'], 'the mtime is sampled before the read, but only inside `if cache and file_io.path is not None` (rt13-C16): a diff_cache-only parse stores time.time()',
+     (CACHE,) + _SAVE_SIG, (GRAMMAR,) + _SAVE_CALL_1, (GRAMMAR,) + _SAVE_CALL_2,
+     (GRAMMAR, "        if cache and file_io.path is not None:\n            module_node = load_module(self._hashed, file_io, cache_path=cache_path)\n            if module_node is not None:\n                return module_node  # type: ignore[no-any-return]\n",
+      "        p_time = None\n        if cache and file_io.path is not None:\n            module_node = load_module(self._hashed, file_io, cache_path=cache_path)\n            if module_node is not None:\n                return module_node  # type: ignore[no-any-return]\n            p_time = file_io.get_last_modified()\n"))
+silent('s-cache3-sample-before-read', ['C16', 'C17'], 'the mtime is sampled before the read whenever the file has a path and handed to the cache (the repair of F7 in the memory cache)',
+       (CACHE,) + _SAVE_SIG, (GRAMMAR,) + _SAVE_CALL_1, (GRAMMAR,) + _SAVE_CALL_2,
+       (GRAMMAR, "        if cache and file_io.path is not None:\n            module_node = load_module(self._hashed, file_io, cache_path=cache_path)\n            if module_node is not None:\n                return module_node  # type: ignore[no-any-return]\n",
+        "        if cache and file_io.path is not None:\n            module_node = load_module(self._hashed, file_io, cache_path=cache_path)\n            if module_node is not None:\n                return module_node  # type: ignore[no-any-return]\n        p_time = None\n        if file_io.path is not None:\n            try:\n                p_time = file_io.get_last_modified()\n            except OSError:\n                cache = False\n"))
